@@ -14,9 +14,11 @@ ASCII = (1 << 128) - 1
 
 
 def prim(*paths):
+    from .mir import norm_path
+
     def deco(f):
         for p in paths:
-            PRIMS[p] = f
+            PRIMS[norm_path(p)] = f
         return f
     return deco
 
@@ -129,6 +131,10 @@ def slice_index(m, st, inst, args, t):
         lo, hi = zero, idx[1][0]
     elif iname.endswith("RangeFrom"):
         lo, hi = idx[1][0], s[2]
+    elif iname.endswith("RangeFull"):
+        lo, hi = zero, s[2]
+    elif iname.endswith("RangeToInclusive"):
+        lo, hi = zero, sym_add(idx[1][0], mk_int(1, pb))
     elif iname.endswith("Range"):
         lo, hi = idx[1]
     else:
@@ -333,6 +339,31 @@ def from_utf8(m, st, inst, args, t):
     return ("enum", 1, (("top", "Utf8Error"),))
 
 
+@prim("core::slice::ascii::<impl [u8]>::is_ascii", "core::str::<impl str>::is_ascii")
+def is_ascii(m, st, inst, args, t):
+    s = args[0]
+    if s[0] != "fat":
+        raise Unanalysable("is_ascii of %s" % s[0])
+    if m.hooks is not None:
+        m.hooks.on_region_scan(m, st, s, "is_ascii scan")
+    c = summ_content(s[3])
+    if c is None:
+        raise Unanalysable("is_ascii over an unsummarised region")
+    if (c & ~ASCII) == 0:
+        return TRUE
+    if (c & ASCII) == 0 and not (s[3][0] == "reg" and s[3][3] is not True):
+        return FALSE
+    name = "region_ascii"
+    if name in st.env:
+        return mk_bool(st.env[name])
+
+    def setv(val):
+        def f(s_):
+            s_.env[name] = val
+        return f
+    raise Fork([("ascii", setv(True)), ("non-ascii", setv(False))], "whether a region is ASCII")
+
+
 # ---- iterators over slices ---------------------------------------------------------------------
 @prim("core::slice::<impl [T]>::iter")
 def slice_iter(m, st, inst, args, t):
@@ -436,7 +467,8 @@ def iterator_next(m, st, inst, args, t):
 
 
 @prim("std::iter::ExactSizeIterator::len", "<std::slice::IterMut<'a, T> as std::iter::ExactSizeIterator>::len",
-      "<std::slice::Iter<'a, T> as std::iter::ExactSizeIterator>::len")
+      "<std::slice::Iter<'a, T> as std::iter::ExactSizeIterator>::len", "<std::slice::IterMut<'_, T> as std::iter::ExactSizeIterator>::len",
+      "<std::slice::Iter<'_, T> as std::iter::ExactSizeIterator>::len")
 def iterator_len(m, st, inst, args, t):
     loc, it = read_arg_place(m, st, args[0])
     if it[0] != "prim":
